@@ -18,7 +18,7 @@ Non-trivial = non-empty suffix, or k >= 2; distinct by hash of the concatenated 
     assumptions: &[],
     parts,
     run_tape,
-    run_enum: no_enum,
+    run_enum,
     run_concrete,
     both_profiles: true,
     exhaustive_note: "",
@@ -29,7 +29,7 @@ fn parts(t: Tier) -> Vec<Part> {
         Tier::Quick => (750_000, 450_000, 900_000),
         Tier::Thorough => (8_000_000, 5_000_000, 10_000_000),
     };
-    vec![tape("suffix", a, 1500), tape("sequence", b, 2500), tape("records", c, 900)]
+    vec![tape("suffix", a, 1500), tape("sequence", b, 2500), tape("records", c, 900), enumerate("huge-buffer", 8)]
 }
 
 fn gen_suffix(t: &mut Tape, cx: &mut Cx) -> Vec<u8> {
@@ -305,6 +305,65 @@ fn run_tape(part: &str, tape: &[u8], cx: &mut Cx) -> Res {
         "sequence" => check_sequence(&mut t, cx),
         _ => check_records(&mut t, cx),
     }
+}
+
+/// a valid message followed by zero octets up to 2^32 + a few: the buffer is allocated zeroed and only its head is ever
+/// touched, so it costs address space, not memory. 32-bit arithmetic on the remaining length wraps here.
+fn run_enum(_part: &str, index: u64, cx: &mut Cx) -> Res {
+    cx.eval();
+    let msg: Vec<u8> = match index % 4 {
+        0 => vec![0x13, 0x20, 0, 20, 0, 1, 0, 2, 0, 3, 0, 4, 0x01, 0x08, 0, 0, 0, 0, 0, 6],
+        1 => vec![0x02, 0x20, 0, 12, 0, 7, 0, 9, 0xde, 0xad, 0xbe, 0xef],
+        2 => vec![0x52, 0x20, 0, 19, 0, 7, 0, 9, 0, 1, 0, 2, 0, 2, 0xaa, 0xbb, 1, 2, 3],
+        _ => vec![0x13, 0x20, 0, 12, 0, 1, 0, 2, 0, 3, 0, 4],
+    };
+    let total: usize = (1usize << 32) + [8usize, 12, 0, 1][(index / 4) as usize % 4] + if index >= 4 { msg.len() } else { 0 };
+    // anonymous, lazily zeroed mapping; if the address space is not available the case is skipped, not failed
+    let map = unsafe { libc::mmap(std::ptr::null_mut(), total, libc::PROT_READ | libc::PROT_WRITE, libc::MAP_PRIVATE | libc::MAP_ANONYMOUS | libc::MAP_NORESERVE, -1, 0) };
+    if map == libc::MAP_FAILED {
+        cx.class("huge buffer: address space not available (case skipped)");
+        return Ok(());
+    }
+    struct Unmap(*mut libc::c_void, usize);
+    impl Drop for Unmap {
+        fn drop(&mut self) {
+            unsafe {
+                libc::munmap(self.0, self.1);
+            }
+        }
+    }
+    let _guard = Unmap(map, total);
+    let big: &mut [u8] = unsafe { std::slice::from_raw_parts_mut(map as *mut u8, total) };
+    big[..msg.len()].copy_from_slice(&msg);
+    let big: &[u8] = big;
+    cx.stage(STAGE_ARMED);
+    let r = guard(|| {
+        let alone = {
+            let mut rd = SliceReader::from(&msg[..]);
+            let m: Result<Message<&[u8]>, _> = Message::try_read_validate(&mut rd, copts(STRICT));
+            m.map(|m| from_crate_msg(&m))
+        };
+        let mut rd = SliceReader::from(big);
+        let m: Result<Message<&[u8]>, _> = Message::try_read_validate(&mut rd, copts(STRICT));
+        let left = rd.len();
+        (alone, m.map(|m| from_crate_msg(&m)), left)
+    });
+    cx.stage(STAGE_SETUP);
+    match r {
+        Caught::Ok((alone, with, left)) => {
+            if alone.is_err() || alone != with {
+                return fail(format!("a message at the head of a {}-octet buffer decodes to {:?}, alone to {:?}", total, with, alone), json!({"message": hex(&msg), "buffer_octets": total}));
+            }
+            if left != total - msg.len() {
+                return fail(format!("{} octets left of a {}-octet buffer after a {}-octet message", left, total, msg.len()), json!({"message": hex(&msg), "buffer_octets": total}));
+            }
+        }
+        _ => return fail("decoding at the head of a 4 GiB buffer panicked", json!({"message": hex(&msg), "buffer_octets": total})),
+    }
+    cx.nontrivial(&(index, total));
+    cx.class("message at the head of a buffer of 2^32 octets and a few more");
+    cx.sample("huge-buffer", || json!({"message": hex(&msg), "buffer_octets": total, "family": "huge-buffer"}));
+    Ok(())
 }
 
 fn run_concrete(case: &Value, _cx: &mut Cx) -> Res {
